@@ -198,21 +198,41 @@ Record engine := mkEngine { e_admin : admin; e_table : table }.
 Definition get_create (e : engine) (k : Z) (now : Z) : traveller :=
   match tget (e_table e) k with Some t => t | None => new_traveller now end.
 
+(** a further flight of a submission whose first flight has been accepted (with the repair: clearance
+    is decided once per check-in, at its first flight): added and debited, no clearance test *)
+Definition follow_on_flight (t : traveller) (f : flight) (now : Z) (taxi : K) (debit : bool)
+  : (traveller * K * K) + eng_err :=
+  match add_flight (t_hist t) f with
+  | inr _ => inr EFlightTooOldE
+  | inl h' =>
+    let t2 := set_hist t h' in
+    let t3 := if debit
+              then let t' := transact t2 (kopp N (fdist f)) now TTFlight in
+                   if kneb N taxi (k0 N) then transact t' (kopp N taxi) now TTTaxiOverhead else t'
+              else t2 in
+    inl (t3, k0 N, k0 N)
+  end.
+
+Definition checkin_one (first : bool) (t : traveller) (f : flight) (now : Z) (taxi : K) (debit : bool)
+  : (traveller * K * K) + eng_err :=
+  if first then submit_flight t f now taxi debit else follow_on_flight t f now taxi debit.
+
 (** Engine.SubmitFlights: the loop over the submitted flights *)
-Fixpoint submit_loop (t : traveller) (pc : pcstate) (fs : list flight) (now : Z) (p : params) (debit : bool)
+Fixpoint submit_loop_from (first : bool) (t : traveller) (pc : pcstate) (fs : list flight) (now : Z) (p : params) (debit : bool)
   : (traveller * pcstate) + eng_err :=
   match fs with
   | [] => inl (t, pc)
   | f :: r =>
-    match submit_flight t f now (pTaxi p) debit with
+    match checkin_one first t f now (pTaxi p) debit with
     | inr e => inr e
     | inl (t1, bac, pd) =>
       let pc1 := pc_change pc bac pd in
       let t2 := if has_bit (pAlgo p) pamCorrectBalances && kltb N bac (k0 N)
                 then transact t1 (kopp N bac) now TTBalanceAdjustment else t1 in
-      submit_loop t2 pc1 r now p debit
+      submit_loop_from false t2 pc1 r now p debit
     end
   end.
+Definition submit_loop := submit_loop_from true.
 
 Definition with_pc (a : admin) (pc : pcstate) : admin :=
   {| a_params := a_params a; a_pred := a_pred a; a_pc := pc; a_grounded := a_grounded a |}.
@@ -220,20 +240,21 @@ Definition with_pc (a : admin) (pc : pcstate) : admin :=
 (** Note: the correction accumulators are updated flight by flight, so a submission refused at its
     second flight has already changed them for the first (they are administrator state, not the
     traveller record). *)
-Fixpoint submit_pc_prefix (t : traveller) (pc : pcstate) (fs : list flight) (now : Z) (p : params) (debit : bool)
+Fixpoint submit_pc_prefix_from (first : bool) (t : traveller) (pc : pcstate) (fs : list flight) (now : Z) (p : params) (debit : bool)
   : pcstate :=
   match fs with
   | [] => pc
   | f :: r =>
-    match submit_flight t f now (pTaxi p) debit with
+    match checkin_one first t f now (pTaxi p) debit with
     | inr _ => pc
     | inl (t1, bac, pd) =>
       let pc1 := pc_change pc bac pd in
       let t2 := if has_bit (pAlgo p) pamCorrectBalances && kltb N bac (k0 N)
                 then transact t1 (kopp N bac) now TTBalanceAdjustment else t1 in
-      submit_pc_prefix t2 pc1 r now p debit
+      submit_pc_prefix_from false t2 pc1 r now p debit
     end
   end.
+Definition submit_pc_prefix := submit_pc_prefix_from true.
 
 Definition submit_flights (e : engine) (k : Z) (fs : list flight) (now : Z) (debit : bool) : engine * option eng_err :=
   match fs with
